@@ -116,4 +116,32 @@ CHECKS = {
         "required_classes": {"random:faulty": 0.001, "random:depth>=6": 0.0005},
         "assumptions": COMMON_ASSUMPTIONS + ["the exit stub never returns (like os.Exit): it panics with a private sentinel recovered around Run; hooks are plain closures, no goroutines"],
     },
+    "C04": {
+        "tests": [{"name": "TestC04", "quick": 64000, "thorough": 1600000}],
+        "rule": "cases = (command tree of depth <= 3, fan-out <= 3, 1-3 aliases per command, own declarations and own explicit or implicit spec per command, Action on ~80% of the commands and on the addressed one; "
+                "a path spelled with a random alias per level; per-level tokens from sentence sampling, token mutation, trailing unknown words); oracle: the vector is split at alias tokens, every level is judged by the "
+                "reference semantics on its own tokens; all levels accept -> hook log is exactly Before(root..leaf), the leaf's Action once, After(leaf..root) and every level's recorder bindings are a derivation of that level's tokens; "
+                "otherwise Run reports an error and nothing ran. non-trivial = accepted routing of depth >= 2 with a non-empty level and a non-first alias; distinct by (argv, policy)",
+        "required_classes": {"kind:accept": 0.2, "kind:reject": 0.1, "accept:depth>=1": 0.05},
+        "assumptions": COMMON_ASSUMPTIONS + ["per-level tokens never spell an alias of a direct subcommand (precondition of the property; aliases use a reserved shape)"],
+    },
+    "C07": {
+        "tests": [{"name": "TestC07", "quick": 64000, "thorough": 1600000}],
+        "rule": "tree generator of C04 x the three error policies (set on the app before any command is declared) x rejection kinds: spec mismatch at a random level (token mutation), unknown subcommand / undeclared option "
+                "words, a token no value type can convert (every container is a recorder failing on one reserved token); oracle: the first level the reference semantics rejects is the rejecting command; "
+                "no hook log entry; error stream contains the error text and 'Usage: <path of the rejecting command>'; ContinueOnError -> returned error, no exit; ExitOnError -> exit stub called once with 2; "
+                "PanicOnError -> Run panics with an error whose text is in the stream; the stream is identical to the one under ContinueOnError; accepted invocations return nil, no exit, no panic. "
+                "non-trivial = rejection at depth >= 1 or conversion failure; distinct by (argv, policy)",
+        "required_classes": {"kind:reject": 0.3, "reject:conversion": 0.02, "kind:accept": 0.05},
+        "assumptions": COMMON_ASSUMPTIONS + ["message wording is not compared, only its presence in the stream"],
+    },
+    "C14": {
+        "tests": [{"name": "TestC14", "quick": 64000, "thorough": 1600000}],
+        "rule": "tree generator of C04 x three policies; a -h/--help token inserted at a random position of a random level (whose other tokens may be invalid), sometimes behind a '--' of the same level (then it is data); "
+                "a version flag as first argument on apps declaring a version; oracle: the command addressed by the aliases preceding the token prints 'Usage: <full path>' and its own LongDesc word and no other command's; "
+                "hook log empty; ExitOnError -> exit(0) once, otherwise Run returns nil without panic; version: the version string is printed, same ending. "
+                "not claimed (counted): a help token below an ancestor whose own tokens contain '--'. non-trivial = help at depth >= 1 or behind ancestor tokens invalid for their level, or a version request; distinct by (argv, policy)",
+        "required_classes": {"kind:help": 0.3, "kind:version": 0.02, "help:after-invalid-ancestor-args": 0.01, "help:token-after-dd-is-data": 0.01},
+        "assumptions": COMMON_ASSUMPTIONS,
+    },
 }
